@@ -8,8 +8,12 @@ Long sessions (harness modes c15long / c15fanlong, harness/go/*/verif_c15long_te
 session (counters wrapping at 2^8 / 2^16, ring indices, id reuse after many attach/detach cycles) is exercised by sessions of 1600
 (quick) to 72000+ messages per direction with scripted consumers that let every buffer fill up around every multiple of 256, and by
 hundreds (quick) to 70000 (thorough) attach/detach cycles per fan-out session.  Their histories are written for coqc as runs of the
-harness' counter sequence (Run/TransportLongRun.v, Proofs/TransportLongProofs.v) and judged by the same accepts_history."""
-import json, os, random
+harness' counter sequence (Run/TransportLongRun.v, Proofs/TransportLongProofs.v) and judged by the same accepts_history.
+
+Time-aged sessions (harness modes c15aged / c15fanaged): behaviour that depends on uptime (periodic timers) - one ProcessMidiEvents and
+one DynamicFanOut per duration of AGED_S stay alive that long with sparse traffic, in the background of everything else; every message
+that reaches the port / the devices is recorded exactly (empty or repeated ones included) and judged by accepts_history."""
+import json, os, random, time
 from concurrent.futures import ThreadPoolExecutor
 from common import *
 
@@ -694,10 +698,37 @@ def check_long_fan(run_, binary, scenarios, tag, race, stats):
         ok.append((sc, h))
     if not ok:
         return
+    judge_long_fan(run_, ok, tag, race, stats)
+
+
+def judge_long_fan(run_, ok, tag, race, stats, aged=False):
+    """ok: list of (scenario, history) of the c15fanlong / c15fanaged harness; every consumer record is judged by fanout_accepts in coqc"""
     rej = eval_long_fan(ok, tag)
     for (sc, h), r in zip(ok, rej):
         recs = h["records"]
         cyc = [c for c in recs if c["kind"] != "resident"]
+        if aged:
+            a = stats["aged"]
+            a["fanout_sessions"] += 1
+            a["fanout_items"] += h["pushed"]
+            a["fanout_cycles"] += len(cyc)
+            a["fanout_uptime_s"].append(round(h["ms"] / 1000, 1))
+            stats["consumers"] += len(recs)
+            stats["items"] += sum(len(c["received"]) for c in recs)
+            if h["pushed"] > 0 and h["ms"] >= sc["duration_ms"]:
+                stats["nontrivial"].add((sc["name"], h["pushed"], len(cyc)))
+            if not r and not h["abandoned"]:
+                continue
+            why = [long_rec_explain(sc, recs[ri], ri) for ri in r[:4]]
+            if h["abandoned"]:
+                why.insert(0, h["why"])
+            run_.violation("time-aged fan-out session %s (alive for %.1f s, one item every %d-%d ms, quiet periods %s, cap %d, %d items, %d attach/detach "
+                           "cycles, %d residents): %s" % (sc["name"], h["ms"] / 1000, sc["period_min_ms"], sc["period_max_ms"], sc["quiets"], sc["icap"],
+                                                          h["pushed"], len(cyc), len(sc["residents"]), "; ".join(why[:4])),
+                           {"kind": "fanout-aged-history", "scenario": sc, "race": race, "pushed": h["pushed"], "history": h, "rejected_records": r,
+                            "monitor": "Run/TransportRun.v accepts_history / fanout_accepts (slack = max 1 cap + 2)"})
+            stats["rejected"] += 1
+            continue
         stats["fan_long"] += 1
         stats["consumers"] += len(recs)
         stats["items"] += sum(len(c["received"]) for c in recs)
@@ -727,6 +758,118 @@ def check_long_fan(run_, binary, scenarios, tag, race, stats):
                         "monitor": "Run/TransportRun.v accepts_history / fanout_accepts (slack = max 1 cap + 2) on every part of the record list"},
                        signature=D16_SIG if (not r and h["abandoned"] and sc["stopped_pct"] > 0 and "DespawnOutput" in h["why"]) else None)
         stats["rejected"] += 1
+
+
+# ----------------------------------------------------------------------------- time-aged sessions (behaviour that depends on uptime)
+# Periodic timers (statistics, keep-alives, watchdogs; typical periods 1, 5, 10, 30, 60, 120 s) fire after a wall-clock time whatever the
+# traffic is: a session must simply stay alive long enough, and every message that reaches the port / the devices must be accounted for.
+AGED_S = {"quick": [11.5], "thorough": [11.5, 31.0, 61.5, 125.0]}
+
+
+def gen_aged(rng, idx, seconds):
+    dur = int(seconds * 1000)
+    nq = 2 if seconds < 20 else 3
+    silent_start = bool(idx % 2) and seconds >= 20   # every other longer session: nothing at all is sent during its first seconds
+    quiets, t = [], rng.randint(600, 1500)
+    for k in range(nq):  # non-overlapping quiet periods of 1.5 - 2.5 s spread over the session
+        lo = max(t, k * dur // nq)
+        start = 0 if (silent_start and k == 0) else rng.randint(lo, max(lo, (k + 1) * dur // nq - 2600))
+        ln = rng.randint(1500, 2500)
+        quiets.append([start, ln])
+        t = start + ln + 300
+    base = {"seed": rng.randrange(1, 2 ** 31), "duration_ms": dur, "period_min_ms": 200, "period_max_ms": 300, "quiets": quiets}
+    relay = dict(base, name="aged-relay-%gs" % seconds, grace_ms=600, stuck_ms=30000, emitters=1 + idx % 2,
+                 out_cap=rng.choice([0, 8]), in_cap=rng.choice([0, 8]), send_cap=rng.choice([0, 1]), recv_cap=rng.choice([0, 1]))
+    n_items = max(4, dur // 250)
+    fan = dict(base, name="aged-fan-%gs" % seconds, gomaxprocs=4, icap=rng.choice([0, 1, 8]), items=n_items, cycles=max(2, n_items // 2), cyclers=2,
+               max_want=3, stopped_pct=0, patience_us=600000, window=FREE, jitter=0, kind="aged", quiet_us=300, bound_ms=10000,
+               deadline_ms=dur + 300000, residents=[{"jitter": 0, "slow_us": 0, "ops": []}, {"jitter": 0, "slow_us": 0, "ops": []}])
+    return relay, fan
+
+
+def start_aged(bins, scenarios):
+    """Both harnesses start now, in the background (their sessions mostly sleep); join_aged collects and judges the histories."""
+    ex = ThreadPoolExecutor(max_workers=2)
+    longest = max(sc[0]["duration_ms"] for sc in scenarios) // 1000
+    fr = ex.submit(run_harness, bins["midi"], "c15aged", {"gomaxprocs": 4, "scenarios": [r for r, f in scenarios]}, longest + 240)
+    ff = ex.submit(run_harness, bins["utils"], "c15fanaged", {"gomaxprocs": 4, "scenarios": [f for r, f in scenarios]}, longest + 480)
+    return {"executor": ex, "relay": fr, "fan": ff, "scenarios": scenarios, "t0": time.time()}
+
+
+def aged_relay_explain(sc, h):
+    """wording only: where the port / the devices saw something else than what was sent, with uptimes"""
+    out = []
+    if h["timeout"]:
+        out.append("a send was still not accepted %d ms after the end of the session (transport stalled)" % sc["stuck_ms"])
+    port, pms = h["port"], h["port_ms"]
+    expect = {k: list(e) for k, e in enumerate(h["sent"])}
+    last = {}
+    for p, (m, ms) in enumerate(zip(port, pms)):
+        k = (m[0] & 15) if m else None
+        if k in expect and expect[k] and expect[k][0] == m:
+            expect[k].pop(0)
+            last[k] = (p, ms)
+            continue
+        what = "an empty message" if not m else "%r" % m
+        dup = next(((q, qms) for q, (m2, qms) in enumerate(zip(port[:p], pms[:p])) if m2 == m and m), None)
+        out.append("devices -> port: at uptime %.1f ms the port received %s as its message %d, which no emitter sent then%s"
+                   % (ms, what, p, ": a second copy of port message %d (received at %.1f ms)" % (dup[0], dup[1]) if dup else ""))
+        break
+    else:
+        miss = {k: len(e) for k, e in expect.items() if e}
+        if miss:
+            out.append("output stream (devices -> port): %s messages sent by emitters %s never reached the port" % (sum(miss.values()), sorted(miss)))
+    arr, got, gms = h["arrived"], h["got"], h["got_ms"]
+    if arr != got:
+        p = next((j for j, (x, y) in enumerate(zip(arr, got)) if x != y), min(len(arr), len(got)))
+        if p < len(got):
+            out.append("input stream (port -> devices): at uptime %.1f ms midiEventsIn delivered %r as message %d where the port had produced %s"
+                       % (gms[p], got[p], p, repr(arr[p]) if p < len(arr) else "nothing more"))
+        else:
+            out.append("input stream (port -> devices): the port produced %d messages, midiEventsIn delivered %d" % (len(arr), len(got)))
+    return "; ".join(out) or "rejected by the monitor"
+
+
+def join_aged(run_, aged, stats, race=False):
+    scs = aged["scenarios"]
+    (ro, rerr), (fo, ferr) = aged["relay"].result(), aged["fan"].result()
+    aged["executor"].shutdown()
+    stats["aged"]["waited_s"] = round(time.time() - aged["t0"], 1)
+    for out, err, what in ((ro, rerr, "relay"), (fo, ferr, "fan-out")):
+        if out is not None and (out.get("_exit", 0) != 0 or "DATA RACE" in out.get("_stderr", "")):
+            out, err = None, "harness exit %s: %s" % (out.get("_exit"), out.get("_stderr", "")[-1500:])
+        if out is None:
+            run_.violation("C15 time-aged %s harness crashed or hung: %s" % (what, err),
+                           {"kind": "aged-batch", "scenarios": [r if what == "relay" else f for r, f in scs], "error": err,
+                            "monitor": "Run/TransportRun.v accepts_history"})
+            stats["crashed"] += 1
+            if what == "relay":
+                ro = None
+            else:
+                fo = None
+    if ro is not None:
+        ok = [(r, h) for (r, f), h in zip(scs, ro["scenarios"])]
+        ver = eval_relay(ok, "aged")   # short histories: literal lists, the same path as the short relay scenarios
+        a = stats["aged"]
+        for (sc, h), (va, vb) in zip(ok, ver):
+            a["relay_sessions"] += 1
+            a["relay_uptime_s"].append(round(h["uptime_ms"] / 1000, 1))
+            a["messages_devices_to_port"] += len(h["port"])
+            a["messages_port_to_devices"] += len(h["got"])
+            stats["messages"] += len(h["port"]) + len(h["got"])
+            if h["port"] and h["got"] and h["uptime_ms"] >= sc["duration_ms"]:
+                stats["nontrivial"].add((sc["name"], len(h["port"]), len(h["got"])))
+            if va and vb and not h["timeout"]:
+                continue
+            run_.violation("time-aged relay session %s (alive %.1f s, a message every %d-%d ms; sent %d, port received %d; port produced %d, "
+                           "midiEventsIn delivered %d): %s"
+                           % (sc["name"], h["uptime_ms"] / 1000, sc["period_min_ms"], sc["period_max_ms"], sum(len(e) for e in h["sent"]),
+                              len(h["port"]), len(h["arrived"]), len(h["got"]), aged_relay_explain(sc, h)),
+                           {"kind": "relay-aged-history", "scenario": sc, "race": race, "history": h,
+                            "monitor": "Run/TransportRun.v accepts_history: relay_ok (out) = %s, in_ok (in) = %s" % (va, vb)})
+            stats["rejected"] += 1
+    if fo is not None:
+        judge_long_fan(run_, [(f, h) for (r, f), h in zip(scs, fo["scenarios"])], "aged", race, stats, aged=True)
 
 
 def build_all(run_, race):
@@ -787,7 +930,9 @@ def new_stats():
             "nontrivial": set(), "relay_long": 0, "fan_long": 0, "long_out": 0, "long_in": 0, "long_out_max": 0, "long_in_max": 0,
             "fan_long_items": 0, "fan_long_items_max": 0, "cycles": 0, "cycles_max": 0, "cycles_stopped": 0, "cycles_received": 0, "max_id": 0,
             "stalls": {"out": 0, "in": 0, "fan": 0}, "stalls_full": {"out": 0, "in": 0, "fan": 0},
-            "full_at": {"out": set(), "in": set(), "fan": set()}}
+            "full_at": {"out": set(), "in": set(), "fan": set()},
+            "aged": {"relay_sessions": 0, "fanout_sessions": 0, "relay_uptime_s": [], "fanout_uptime_s": [], "messages_devices_to_port": 0,
+                     "messages_port_to_devices": 0, "fanout_items": 0, "fanout_cycles": 0, "waited_s": 0}}
 
 
 def wraps_covered(full_at, margin=40):
@@ -847,6 +992,10 @@ def run(run_):
     bins = build_all(run_, False)
     if bins is None:
         return
+    # time-aged sessions run in the background, next to everything else (own random stream)
+    arng = random.Random(run_.seed * 37 + 4)
+    aged_scs = [gen_aged(arng, i, sec) for i, sec in enumerate(AGED_S[tier])]
+    aged = start_aged(bins, aged_scs)
     n_fan, n_relay = (150, 40) if tier == "quick" else (12000, 1500)
     corpus = corpus_fanout()
     # the corpus (D16 first) always runs first, on its own
@@ -867,6 +1016,7 @@ def run(run_):
     long_relay, long_fan = long_plan(lrng, tier, stopped=not d16_hit)
     check_long_relay(run_, bins["midi"], long_relay, "gen", False, stats)
     check_long_fan(run_, bins["utils"], long_fan, "gen", False, stats)
+    join_aged(run_, aged, stats)
     raced = 0
     if tier == "thorough":
         rb = build_all(run_, True)
@@ -884,7 +1034,7 @@ def run(run_):
             raced = len(fr) + len(rr) + len(lr) + len(lf)
     sample_fan = dict(fan[0], consumers=fan[0]["consumers"][:3]) if fan else corpus[0]
     run_.coverage.update({
-        "evaluations": stats["fan"] + stats["relay"] + stats["relay_long"] + stats["fan_long"],
+        "evaluations": stats["fan"] + stats["relay"] + stats["relay_long"] + stats["fan_long"] + stats["aged"]["relay_sessions"] + stats["aged"]["fanout_sessions"],
         "distinct_nontrivial": len(stats["nontrivial"]),
         "rule": "fan-out: corpus scenarios (D16 first) then seeded random scenarios - input capacity in {0,1,2,8,16}, 20-320 items, 1-5 consumers "
                 "(fast / slow / stopped after k reads) attached and detached at random stream positions, schedule jitter (Gosched, sleeps, spins) "
@@ -903,9 +1053,15 @@ def run(run_):
                 "stopped reading) over and over - ids reused all the time; every cycle and every resident is one consumer record for fanout_accepts. "
                 "Long histories are written for coqc as runs of the counter sequence (Run/TransportLongRun.v expands them, "
                 "Proofs/TransportLongProofs.v: cmsg_inj, cmsg_tag, accepts_history_fanout_app) and judged by the same accepts_history. "
+                "time-aged sessions (behaviour that depends on uptime, e.g. periodic timers of 1, 5, 10, 30, 60, 120 s): one ProcessMidiEvents instance "
+                "and one DynamicFanOut per duration in %s s stay alive that long, concurrently with all other scenarios, with one counter-tagged message per "
+                "direction / one item every 200-300 ms and 2-3 quiet periods of 1.5-2.5 s; everything the port's send channel, midiEventsIn and the "
+                "fan-out's consumers deliver until 0.6 s after the last message is recorded exactly with its uptime - an empty, malformed or repeated "
+                "message included - and judged by accepts_history on the literal lists. "
                 "non-trivial = distinct histories in which at least one consumer received items (fan-out), >= 2 emitters reached the port (relay), "
                 "> 256 messages per direction with at least one scripted stall (long relay), >= 100 attach/detach cycles some of which received items "
-                "(long fan-out); every history is judged in coqc by the monitor the soundness theorems are about" % (LONG_MIN["quick"], LONG_MIN["thorough"]),
+                "(long fan-out), messages in both directions and the full uptime reached (time-aged); every history is judged in coqc by the monitor the "
+                "soundness theorems are about" % (LONG_MIN["quick"], LONG_MIN["thorough"], AGED_S[tier]),
         "samples": [{"fanout_scenario": corpus[0]}, {"fanout_scenario": sample_fan}, {"relay_scenario": relay[0] if relay else None},
                     {"long_relay_scenario": dict(long_relay[0], out=dict(long_relay[0]["out"], ops=long_relay[0]["out"]["ops"][:3]),
                                                  **{"in": dict(long_relay[0]["in"], ops=long_relay[0]["in"]["ops"][:3])})},
@@ -915,6 +1071,8 @@ def run(run_):
         "stopped_consumers_despawned_within_bound": stats["stopped_despawned"],
         "histories_under_race_detector": raced, "despawn_bound_ms": BOUND_MS,
         "long_sessions": long_coverage(stats, long_relay, long_fan),
+        "time_aged_sessions": dict(stats["aged"], durations_s=AGED_S[tier], message_period_ms=[200, 300],
+                                   quiet_periods_ms=[r["quiets"] for r, f in aged_scs], run_concurrently_with_the_other_scenarios=True),
         "generator": "one random.Random(seed) draws all scenario parameters; the Go side seeds its jitter PRNGs from the scenario seed",
         "exhaustive": False,
         "correspondence_obligations": 3,
@@ -936,6 +1094,8 @@ def run(run_):
         "the long-session harnesses detect 'producer blocked, every buffer full' by the absence of progress for 300 us: a wrong guess (slow machine) only "
         "lowers the measured coverage (stalls that 'ended_with_every_buffer_full'), it is never judged; their only time bounds are 10 s per "
         "SpawnOutput / DespawnOutput call and >= 120 s per session",
+        "time-aged sessions observe uptimes up to %g s only: a timer with a longer period, or one armed by something else than the start of "
+        "ProcessMidiEvents / NewDynamicFanOut, is not exercised" % max(AGED_S[tier]),
         "not modelled: ctx cancellation and closing of midiEventsOut / the fan-out input (shutdown), port Open errors, logging, the score counters",
     ]
 
@@ -949,7 +1109,20 @@ def replay(run_, data):
     bins = build_all(run_, bool(rep.get("race")))
     if bins is None:
         return
-    if rep.get("kind", "").startswith("fanout-long"):
+    if rep.get("kind", "") in ("relay-aged-history", "fanout-aged-history"):
+        sc = rep["scenario"]
+        pair = (sc, None) if rep["kind"].startswith("relay") else (None, sc)
+        ex = ThreadPoolExecutor(max_workers=1)
+        if pair[0]:
+            fut = ex.submit(run_harness, bins["midi"], "c15aged", {"gomaxprocs": 4, "scenarios": [sc]}, sc["duration_ms"] // 1000 + 240)
+            none = ex.submit(lambda: ({"scenarios": []}, None))
+            aged = {"executor": ex, "relay": fut, "fan": none, "scenarios": [(sc, None)], "t0": time.time()}
+        else:
+            fut = ex.submit(run_harness, bins["utils"], "c15fanaged", {"gomaxprocs": 4, "scenarios": [sc]}, sc["duration_ms"] // 1000 + 480)
+            none = ex.submit(lambda: ({"scenarios": []}, None))
+            aged = {"executor": ex, "relay": none, "fan": fut, "scenarios": [(None, sc)], "t0": time.time()}
+        join_aged(run_, aged, stats, bool(rep.get("race")))
+    elif rep.get("kind", "").startswith("fanout-long"):
         for _ in range(3):
             check_long_fan(run_, bins["utils"], [rep["scenario"]], "replay", bool(rep.get("race")), stats)
     elif rep.get("kind", "").startswith("fanout"):
